@@ -270,9 +270,6 @@ theorem ostep_inr (s s' : St) (o : Op) (r : Res) (h : ostep s o = (s', .inr r)) 
 
 /-! ## invariants of a step that leaves the operation in flight -/
 
-/-- bytes the operation holds or can still be given -/
-def budget (s : St) (o : Op) : Nat := s.left + o.rb.length + s.q.flatten.length
-
 /-- the loss strikes before the lossless run would have consumed what it needs -/
 def Starved (s : St) (o : Op) : Prop := budget s o < need (unread s o).length o.prog
 
